@@ -86,13 +86,26 @@ def main(tier):
             plan.append(('shipped' if i % 3 else 'kissel', 'tsan', 8 if i % 4 else 16, 12000, 10 + (i % 5) * 20, i % 2))
         for i in range(400):
             plan.append(('kissel' if i % 3 == 0 else 'shipped', 'plain', 8 if i % 2 else 16, 150000, (i % 4) * 15, (i + 1) % 2))
-    libs, mons, queries, refs = {}, {}, {}, {}
+    libs, mons, queries, refs, corner = {}, {}, {}, {}, {}
     for cfg in ('shipped', 'kissel'):
         libs[cfg] = execlib.Lib(cfg)
         Q, S = c16.build_queries(libs[cfg], rng, 30 if tier == 'quick' else 120)
         Q = Q[Q['fn'] < 2000]
+        # group / composite macros for every function that takes a line or shell: few values, but each has its own code path
+        extra = []
+        for name, f in sorted(libs[cfg].fns.items()):
+            if f['sig'] in ('ii', 'iid') and f['argnames'][1] == 'line':
+                Zs_, Ls_ = np.meshgrid([13, 29, 47, 56, 79, 82, 92], [0, 1, 2, 3, -91, -207], indexing='ij')
+                args = [Zs_.ravel(), Ls_.ravel()] + ([np.full(Zs_.size, 17.44)] if f['sig'] == 'iid' else [])
+                extra.append(libs[cfg].build(name, *args)[0])
+        ncorner = sum(len(e) for e in extra)
+        Q = np.concatenate([Q] + extra)
+        corner[cfg] = np.arange(len(Q) - ncorner, len(Q))
         # requests naming a crystal that does not exist cannot be expressed to the reference executor: drop them
         bad = np.array([(r['fn'] >= 1001 and r['fn'] <= 1006 and r['s'] >= 0 and S[int(r['s'])] == 'nope') for r in Q])
+        keep = np.nonzero(~bad)[0]
+        remap = -np.ones(len(Q), int); remap[keep] = np.arange(len(keep))
+        corner[cfg] = remap[corner[cfg]]; corner[cfg] = corner[cfg][corner[cfg] >= 0]
         Q = Q[~bad]
         queries[cfg] = (Q, S)
         refs[cfg] = libs[cfg].run(Q, S)
@@ -105,8 +118,16 @@ def main(tier):
         i, (cfg, fl, th, calls, yld, loc) = job
         env = dict(LOCPATH=locdir, LC_ALL='xx_VERIF') if loc else dict(LC_ALL='C')
         Q, S = queries[cfg]
+        # ThreadSanitizer runs work on a seeded subset of ~400 requests so that every request is executed by several threads
+        # many times (a race needs two threads in the SAME code); plain runs use the whole set
+        ref = refs[cfg]
+        if fl == 'tsan' and len(Q) > 500:
+            sel = np.random.default_rng(ck.seed * 7907 + i).choice(len(Q), 400, replace=False)
+            sel = np.union1d(sel, corner[cfg])
+            Q = Q[sel]
+            ref = execlib.Res(ref.raw[sel], ref.msgs)
         # every second run starts cold (first library calls of the process are concurrent; reference from another process)
-        return job, run_one(mons[(cfg, fl)], Q, S, th, calls, yld, env, ck.seed * 1000 + i, ref=refs[cfg] if i % 2 else None)
+        return job, run_one(mons[(cfg, fl)], Q, S, th, calls, yld, env, ck.seed * 1000 + i, ref=ref if i % 2 else None)
     # TSan runs are CPU heavy (8-16 threads each): a few at a time
     with ThreadPoolExecutor(3) as ex:
         results = list(ex.map(go, list(enumerate(plan))))
